@@ -141,7 +141,7 @@ def composite_certificate(row, tol, lam):
                                   glist(gpair(gZ(a), gN(b)) for a, b in evs), gZ(t_end))
 
 
-def swap_certificate(row, tol, lam):
+def swap_certificate(row, tol, lam, swap=True):
     """History of a live raw peer whose polling->websocket upgrade completes at row['cut'] as a run of
     the composed system with a transport-swap step: per round SWake, [XSwap], XDeliver, CRearm,
     XDeliverPong, STake; a ping written before the swap and seen after it waited in the polling
@@ -155,7 +155,7 @@ def swap_certificate(row, tol, lam):
         return None
     start = min(row["open_srv"], row["open_cli"]) - lam
     u = row["cut"]
-    evs, t, swapped, ld, lu = [], start, False, lam, 0
+    evs, t, swapped, ld, lu = [], start, not swap, lam, 0
     if row["when"] == "swap-nopoll":
         evs.append((max(start, row["open_cli"]), 15))       # the NOOP the probe forces into the polling queue
         t_last = evs[-1][0]
@@ -216,9 +216,10 @@ def build_terms(row, widen):
     out = []
     raw = row["peer"] in ("raw", "rawup")
     rawup = row["peer"] == "rawup"
+    upfail = row["when"].startswith("upfail-")   # long-polling paused while the probe runs: one ping may be fetched late
     jitter = row["fault"] == "jitter"
     # --- correspondence
-    start, evs, cl = server_certificate(row, tol, lam, use_pings=not jitter and not rawup)
+    start, evs, cl = server_certificate(row, tol, lam, use_pings=not jitter and not rawup and not upfail)
     out.append(("agree:server", "agree_s", hcase_term(row, tol, start, evs, cl)))
     if not raw:
         start, evs, cl = client_certificate(row, tol, lam)
@@ -230,11 +231,13 @@ def build_terms(row, widen):
             out.append(("agree:composed", "agree_x", x))
         out.append(("oracle:live-server", "oracle", ocase_term(2, row, tol, 0, close_of(row["srv_close"]))))
     elif row["fault"] == "none":
-        x = composite_certificate(row, tol, lam)
+        x = swap_certificate(row, tol, lam, swap=False) if upfail else composite_certificate(row, tol, lam)
         if x is not None:
             out.append(("agree:composed", "agree_x", x))
         out.append(("oracle:live-server", "oracle", ocase_term(2, row, tol, 0, close_of(row["srv_close"]))))
-        out.append(("oracle:live-client", "oracle", ocase_term(2, row, tol, 0, close_of(row["cli_close"]))))
+        # client: not closed AND pings keep flowing (the latest one is recent when the observation ends)
+        last = max([row["open_cli"]] + row["cli_pings"])
+        out.append(("oracle:live-client", "oracle", ocase_term(5, row, tol, last, close_of(row["cli_close"]))))
     elif jitter:
         out.append(("oracle:live-client", "oracle", ocase_term(2, row, tol, 0, close_of(row["cli_close"]))))
     else:
